@@ -17,6 +17,11 @@ sections (replay key "sec"):
   roots      bezier_roots on polynomials with planted roots, degree 0..12
   unit       roots_in_unit_interval, _strip_leading_zeros, _check_non_simple
   endtoend   all_intersections / locate_point on lattice pairs with known answers, refusals
+  scale      the same polynomial presented at another SCALE (coefficients times an exact power of two, chosen
+             around the module's absolute thresholds and far away from them): c * p has the roots of p, so the
+             oracles of `unit` (roots_in_unit_interval) and `roots` (bezier_roots) apply unchanged
+  locate     locate_point on lattice curves of degree 1..3 (also degree-elevated / collinear nets) times an exact
+             power of two, at an exact point B(s0), s0 dyadic: a parameter of that point must come back
 """
 import math
 import os
@@ -792,7 +797,7 @@ class Run:
                                     (cs["coeffs"], val, float(lu[d - 1, d - 1]), float(want)), cs)
 
     # ---------------------------------------------------------------- section: roots
-    def planted(self):
+    def planted(self, reps=None):
         """polynomials from prescribed roots: list of dicts {bern, n, roots:[(re, im, mult, class)]}"""
         rnd = self.rnd
         out = []
@@ -822,7 +827,7 @@ class Run:
                 rr.append((Fr(1), Fr(0), unit, "unit"))
             return {"bern": ints, "n": n, "roots": rr, "elevate": elevate, "exact": exact}
 
-        reps = 3 * self.mult
+        reps = 3 * self.mult if reps is None else reps
         for n in range(0, 13):
             for _ in range(reps):
                 # simple real roots inside / outside
@@ -869,7 +874,7 @@ class Run:
                     out.append(build(roots, elevate=el, unit=unit))
         return out
 
-    def sec_roots(self, cases=None):
+    def sec_roots(self, cases=None, value_check_note=True):
         res, A = self.res, self.A
         if cases is None:
             cases = []
@@ -879,7 +884,9 @@ class Run:
         drv = C.Driver()
         plan = []
         for cs in cases:
-            b = [_fr(v) for v in cs["bern"]]
+            b = [_fr(v) * Fr(2) ** int(cs.get("scale", 0)) for v in cs["bern"]]
+            if any(Fr(float(v)) != v for v in b):
+                raise SystemExit("spec broken: scaled Bernstein coefficients are not representable")
             arr = np.asfortranarray([float(v) for v in b])
             comp, deg, eff = guarded(res, "bernstein_companion", A.bernstein_companion, arr, cs)
             eig = np.linalg.eigvals(comp) if eff else np.empty((0,))
@@ -892,7 +899,14 @@ class Run:
                 n = len(b) - 1
                 roots = [(Fr(a), Fr(bb), int(m), cl) for a, bb, m, cl in cs["roots"]]
                 classes = sorted({cl for _, _, _, cl in roots}) or ["constant"]
-                res.count(("roots", cs["bern"]), nontrivial=(n >= 1), sec="roots", degree=n, classes="+".join(classes))
+                k2 = int(cs.get("scale", 0))
+                sfx = ":scaled-coefficients" if k2 else ""
+                shown = ("2^%d * %s" % (k2, cs["bern"])) if k2 else cs["bern"]
+                if k2:
+                    res.count(("roots", cs["bern"], k2), nontrivial=(n >= 1), sec="scale", kind="bezier_roots", degree=n,
+                              scale=scale_bucket(k2), largest_coefficient=scale_bucket(mag_exp(b)))
+                else:
+                    res.count(("roots", cs["bern"]), nontrivial=(n >= 1), sec="roots", degree=n, classes="+".join(classes))
                 out = np.atleast_1d(np.asarray(guarded(res, "bezier_roots", A.bezier_roots, arr, cs)))
                 got = [(float(np.real(z)), float(np.imag(z))) for z in out]
                 res.sample({"sec": "roots", "degree": n, "classes": classes, "returned": len(got)})
@@ -910,7 +924,7 @@ class Run:
                                 break
                 if n == 0 or not any(b):
                     if got:
-                        res.failure("root-spurious", "constant polynomial %s has roots %r" % (cs["bern"], got), cs)
+                        res.failure("root-spurious" + sfx, "constant polynomial %s has roots %r" % (shown, got), cs)
                     continue
                 # ---- oracle
                 e = max(k for k in range(n + 1) if b[k] != 0)
@@ -933,11 +947,11 @@ class Run:
                 unit_mult = n - e
                 ones = sum(1 for (gr, gi) in got if gr == 1.0 and gi == 0.0)
                 if ones < unit_mult:
-                    res.failure("root-missed:unit", "bezier_roots(%s): %d roots at exactly 1 expected, %d returned" %
-                                (cs["bern"], unit_mult, ones), cs)
+                    res.failure("root-missed:unit" + sfx, "bezier_roots(%s): %d roots at exactly 1 expected, %d returned" %
+                                (shown, unit_mult, ones), cs)
                 if ones > unit_mult and cs.get("exact", False) and not any(float(re) == 1.0 and im == 0 for (re, im, m, cl) in roots if cl != "unit"):
-                    res.failure("root-multiplicity:unit", "bezier_roots(%s): the root 1 has multiplicity %d (trailing zero Bernstein "
-                                "coefficients) but is returned %d times" % (cs["bern"], unit_mult, ones), cs)
+                    res.failure("root-multiplicity:unit" + sfx, "bezier_roots(%s): the root 1 has multiplicity %d (trailing zero Bernstein "
+                                "coefficients) but is returned %d times" % (shown, unit_mult, ones), cs)
                 # (2) every planted root is returned, with multiplicity
                 expanded = []
                 for (re, im, m, cl) in roots:
@@ -954,16 +968,16 @@ class Run:
                 unused += [complex(1.0, 0.0)] * max(0, ones - unit_mult)
                 for allow, z, m, cl in sorted(expanded, key=lambda t: t[0]):
                     if not unused:
-                        res.failure("root-missed:%s" % cl, "bezier_roots(%s): planted root %r (multiplicity %d) not returned; got %r" %
-                                    (cs["bern"], z, m, got), cs)
+                        res.failure("root-missed:%s" % cl + sfx, "bezier_roots(%s): planted root %r (multiplicity %d) not returned; got %r" %
+                                    (shown, z, m, got), cs)
                         continue
                     j = min(range(len(unused)), key=lambda i: abs(unused[i] - z))
                     if not self.ratio('root-match:%s:m%d' % (cl, m), abs(unused[j] - z), allow):
                         unused.pop(j)
                     else:
-                        res.failure("root-missed:%s" % cl,
+                        res.failure("root-missed:%s" % cl + sfx,
                                     "bezier_roots(%s): planted root %r (multiplicity %d) not returned within %.3e "
-                                    "(= 4 (m! eps W T / |p^(m)|)^(1/m)); nearest %r" % (cs["bern"], z, m, allow, unused[j]), cs)
+                                    "(= 4 (m! eps W T / |p^(m)|)^(1/m)); nearest %r" % (shown, z, m, allow, unused[j]), cs)
                 # (3) every returned root has a small exact residual (normwise backward error)
                 for (gr, gi) in got:
                     if gr == 1.0 and gi == 0.0:
@@ -972,17 +986,17 @@ class Run:
                         val = bern_complex_exact(b, (Fr(gr), Fr(gi)))
                     bound = eps * W * T(complex(gr, gi))
                     if self.ratio('root-residual', fabs2(val), bound):
-                        res.failure("root-spurious", "bezier_roots(%s): returned %r has |p| = %.3e > %.3e = %d(n+1)u max C(n,k)|c_k| "
-                                    "sum |s|^k |1-s|^(n-k)" % (cs["bern"], (gr, gi), fabs2(val), bound, C_ROOT), cs)
+                        res.failure("root-spurious" + sfx, "bezier_roots(%s): returned %r has |p| = %.3e > %.3e = %d(n+1)u max C(n,k)|c_k| "
+                                    "sum |s|^k |1-s|^(n-k)" % (shown, (gr, gi), fabs2(val), bound, C_ROOT), cs)
                 # (4) count: degree many, minus sigma-roots dropped at sigma = -1 (s = infinity)
                 dropped = sum(1 for z in eig if abs(complex(z) + 1.0) <= float(self.const["SIGMA_THRESHOLD"]))
                 if len(got) != n - dropped:
-                    res.failure("root-count", "bezier_roots(%s): %d roots returned, degree %d, %d dropped at infinity" %
-                                (cs["bern"], len(got), n, dropped), cs)
+                    res.failure("root-count" + sfx, "bezier_roots(%s): %d roots returned, degree %d, %d dropped at infinity" %
+                                (shown, len(got), n, dropped), cs)
                 if dropped > cs.get("elevate", 0) and cs.get("exact", False):
-                    res.failure("root-missed:finite-dropped", "bezier_roots(%s): %d sigma-roots dropped at -1 but only %d roots at infinity" %
-                                (cs["bern"], dropped, cs.get("elevate", 0)), cs)
-        if self.pure:
+                    res.failure("root-missed:finite-dropped" + sfx, "bezier_roots(%s): %d sigma-roots dropped at -1 but only %d roots at infinity" %
+                                (shown, dropped, cs.get("elevate", 0)), cs)
+        if self.pure and value_check_note:
             try:
                 import scipy.linalg.lapack  # noqa
                 have = True
@@ -992,7 +1006,7 @@ class Run:
                 res.skip("bezier_value_check: SciPy absent")
 
     # ---------------------------------------------------------------- section: unit
-    def sec_unit(self, cases=None):
+    def sec_unit(self, cases=None, non_simple=True):
         res, A, rnd = self.res, self.A, self.rnd
         w = self.const["IMAGINARY_WIGGLE"]
         lo, hi = self.const["UNIT_INTERVAL_WIGGLE_START"], self.const["UNIT_INTERVAL_WIGGLE_END"]
@@ -1021,6 +1035,12 @@ class Run:
             for a, b in pairs:
                 p = X.poly_mul(p, [a * a + b * b, -2 * a, Fr(1)])
             ints = scale_ints(p) or [Fr(float(v)) for v in p]
+            k2 = int(cs.get("scale", 0))
+            if k2:
+                # the same polynomial times 2^k2 (exact in binary64: no rounding, same roots)
+                ints = [v * Fr(2) ** k2 for v in ints]
+                if any(Fr(float(v)) != v for v in ints):
+                    raise SystemExit("spec broken: scaled coefficients are not representable")
             arr = np.asfortranarray([float(v) for v in ints])
             from numpy.polynomial import polynomial as P
             allr = P.polyroots(arr)
@@ -1032,8 +1052,15 @@ class Run:
         for cs, reals, pairs, ints, arr, allr, i1, i2 in plan:
             with self.guard("unit", cs):
                 n = len(ints) - 1
-                res.count(("unit", cs["reals"], cs["pairs"], cs["lead"]), sec="unit", degree=n)
-                out = [float(v) for v in np.atleast_1d(A.roots_in_unit_interval(arr.copy()))]
+                k2 = int(cs.get("scale", 0))
+                sfx = ":scaled-coefficients" if k2 else ""
+                if k2:
+                    res.count(("unit", cs["reals"], cs["pairs"], cs["lead"], k2), sec="scale", kind="roots_in_unit_interval",
+                              degree=n, scale=scale_bucket(k2), largest_coefficient=scale_bucket(mag_exp(ints)))
+                else:
+                    res.count(("unit", cs["reals"], cs["pairs"], cs["lead"]), sec="unit", degree=n)
+                out = [float(v) for v in np.atleast_1d(guarded(res, "roots_in_unit_interval", A.roots_in_unit_interval, arr, cs)
+                                                       if k2 else A.roots_in_unit_interval(arr.copy()))]
                 model = [float(v) for v in replies[i1][1]]
                 margins = [min(abs(float(np.real(z)) - float(lo)), abs(float(np.real(z)) - float(hi)),
                                abs(abs(float(np.imag(z))) - float(w))) for z in np.atleast_1d(allr)]
@@ -1057,10 +1084,10 @@ class Run:
                     clear_out = rf < float(lo) - allow or rf > float(hi) + allow
                     hit = any(abs(o - rf) <= allow for o in out)
                     if clear_in and not hit and allow < 1e-5:
-                        res.failure("root-missed:unit-interval", "roots_in_unit_interval: planted simple root %s of %s not returned (got %r, allowed %.3e)" %
-                                    (r, C.jfr(ints), out, allow), cs)
+                        res.failure("root-missed:unit-interval" + sfx, "roots_in_unit_interval: planted simple root %s of %s%s not returned (got %r, allowed %.3e)" %
+                                    (r, "2^%d * " % k2 if k2 else "", C.jfr([v / Fr(2) ** k2 for v in ints]), out, allow), cs)
                     if clear_out and hit:
-                        res.failure("root-spurious:unit-interval", "roots_in_unit_interval returned %s outside the widened interval" % r, cs)
+                        res.failure("root-spurious:unit-interval" + sfx, "roots_in_unit_interval returned %s outside the widened interval" % r, cs)
                 for o in out:
                     # every returned value is near a real root or a complex pair with small imaginary part
                     cand = [float(r) for r in reals] + [float(pa) for pa, pb in pairs if pb < 2 * w]
@@ -1068,15 +1095,18 @@ class Run:
                     bound = 4 * C_ROOT * (n + 1) * UF * norm * sum(abs(o) ** i for i in range(n + 1))
                     near_pair = any(abs(o - float(pa)) < 1e-6 for pa, pb in pairs if pb < 2 * w)
                     if val > bound and not near_pair:
-                        res.failure("root-spurious:unit-interval", "roots_in_unit_interval(%s) returned %r with |p| = %.3e > %.3e" %
+                        res.failure("root-spurious:unit-interval" + sfx, "roots_in_unit_interval(%s) returned %r with |p| = %.3e > %.3e" %
                                     (C.jfr(ints), o, val, bound), cs)
+                if k2:
+                    continue        # (the helper below is specified for normalised input only)
                 # _strip_leading_zeros (pure data movement): impl == model exactly
                 stripped = A._strip_leading_zeros(np.asfortranarray([float(v) for v in ints] + [0.0, 2.0 ** -30]))
                 st, m = replies[i2]
                 if st != "ok" or [Fr(float(v)) for v in stripped] != m:
                     res.mismatch("_strip_leading_zeros", cs, repr(list(stripped)), C.jfr(m) if st == "ok" else m)
         # _check_non_simple: the matrix p(companion(p')^T) and the decision, given the impl's rank
-        self.check_non_simple()
+        if non_simple:
+            self.check_non_simple()
 
     def check_non_simple(self):
         res, A, rnd = self.res, self.A, self.rnd
@@ -1233,10 +1263,202 @@ class Run:
                         if loc is None or abs(float(X.bern(n1[0], Fr(float(loc)))) - p1[0]) > 2.0 ** -30 * size:
                             res.notes.append("locate_point did not recover s=%r on %s (returned %r)" % (s, cs["n1"], loc))
 
+    # ---------------------------------------------------------------- section: scale
+    def threshold_exponents(self):
+        """binary exponents of the absolute constants of the module (whatever they currently are): a polynomial whose
+        coefficients sit just below / above one of them is where an absolute test on un-normalised data would bite"""
+        out = set()
+        for v in self.const.values():
+            if v != 0:
+                out.add(math.frexp(abs(float(v)))[1] - 1)
+            if v not in (0, 1) and abs(v) > 1:
+                out.add(math.frexp(abs(float(abs(v) - 1)))[1] - 1)          # 1 + 2^-13 -> -13
+        out.add(math.frexp(float(getattr(self.A, "_SINGULAR_EPS", 2.0 ** -52)))[1] - 1)
+        return sorted(out)
+
+    def pick_scale(self, mags, lead=None):
+        """exponent k of the factor 2^k: either places the largest / smallest non-zero / leading coefficient within a
+        factor 8 of one of the module's absolute thresholds, or is far away from all of them (both directions)"""
+        rnd = self.rnd
+        mags = [float(m) for m in mags if m] or [1.0]
+        if rnd.random() < 0.6:
+            ref = rnd.choice([max(mags), max(mags), min(mags), float(lead) if lead else max(mags)])
+            e = rnd.choice(self.threshold_exponents())
+            k = e - (math.frexp(ref)[1] - 1) + rnd.randint(-3, 3)
+        else:
+            k = rnd.choice([-1, 1]) * rnd.choice([8, 27, 33, 45, 64, 100, 200, 300])
+        return k or -1
+
+    def sec_scale(self):
+        """roots of c * p = roots of p: the planted-root oracles of `unit` and `roots`, unchanged, on coefficient
+        vectors multiplied by an exact power of two"""
+        rnd = self.rnd
+        inside = [Fr(k, 16) for k in range(0, 17)]
+        outside = [Fr(-3, 2), Fr(2), Fr(5, 4), Fr(-1, 4), Fr(3), Fr(-1, 8), Fr(9, 8)]
+        cplx = [(Fr(1, 2), Fr(1, 2)), (Fr(1, 4), Fr(1)), (Fr(3, 4), Fr(1, 8)), (Fr(-1, 2), Fr(2))]
+        ucases = []
+        for n in range(1, 10):
+            for _ in range(8 * self.mult):
+                k = rnd.randint(1, n)
+                reals = (rnd.sample(inside, min(k, 8)) + rnd.sample(outside, min(n - min(k, 8), 5)))[:n]
+                pairs = rnd.sample(cplx, min((n - len(reals)) // 2, 3))
+                lead = rnd.choice([1, -2, 3])
+                p = [Fr(lead)]
+                for r in reals:
+                    p = X.poly_mul(p, [-r, Fr(1)])
+                for a, b in pairs:
+                    p = X.poly_mul(p, [a * a + b * b, -2 * a, Fr(1)])
+                ints = scale_ints(p) or [Fr(float(v)) for v in p]
+                ucases.append({"sec": "unit", "reals": C.jfr(reals), "pairs": C.jfr([list(q) for q in pairs]), "lead": lead,
+                               "scale": self.pick_scale([abs(v) for v in ints], abs(ints[-1]))})
+        self.sec_unit(ucases, non_simple=False)
+        rcases = []
+        for pl in self.planted(reps=(6 if self.thorough else 2)):
+            if pl["n"] == 0:
+                continue
+            k = self.pick_scale([abs(v) for v in pl["bern"]], None)
+            # keep every coefficient a normal binary64 number
+            hi = max(mag_exp([v for v in pl["bern"] if v]), 0)
+            lo = min(math.frexp(float(abs(v)))[1] for v in pl["bern"] if v) - 54
+            k = max(min(k, 1000 - hi), -1000 - lo)
+            rcases.append({"sec": "roots", "bern": C.jfr(pl["bern"]), "exact": pl["exact"], "elevate": pl["elevate"], "scale": k,
+                           "roots": [[str(a), str(b), m, cl] for a, b, m, cl in pl["roots"]]})
+        self.sec_roots(rcases, value_check_note=False)
+
+    # ---------------------------------------------------------------- section: locate
+    def sec_locate(self, cases=None):
+        """locate_point(nodes, B(s0)) on a lattice net whose rows are multiplied by exact powers of two (the same for both
+        coordinates, or one per coordinate).  SPEC: P = B(s0) is computed exactly and is a binary64 point, s0 in [0, 1]; so
+        a parameter exists and the routine has to return an s with B(s) = P (per coordinate up to 2^-30 * size, the
+        allowance of `endtoend`).  Demanded only where a backward stable root finder is bound to succeed: s0 is a simple
+        root of both coordinate polynomials x(s) - x0, y(s) - y0 and the first-order effect of the root allowance of
+        `unit` (4 C_ROOT (n+1) u max|a_i| sum|s0|^i / |p'(s0)|) on the OTHER, L2-normalised, coordinate polynomial stays
+        below half the routine's own acceptance threshold.  All of that is invariant under the scaling."""
+        res, A, rnd = self.res, self.A, self.rnd
+        if cases is None:
+            cases = []
+            for _ in range((300 if self.pure else 200) * self.mult):
+                n = rnd.choice([1, 2, 2, 3, 3, 3])
+                nodes = self.lattice_net(n, 8)
+                if len(nodes[0]) <= 4 and rnd.random() < 0.2:
+                    nodes = [[v * len(row) for v in X.elevate_exact(row)] for row in nodes]      # one more (formal) degree
+                if all(len(set(row)) == 1 for row in nodes):
+                    continue                                                                  # a point, not a curve
+                s0 = rnd.choice([Fr(0), Fr(1), Fr(1, 2)] + [Fr(rnd.randint(0, 32), 32)] * 9)
+                kind = rnd.random()
+                if kind < 0.1:
+                    ks = [0, 0]
+                elif kind < 0.7:
+                    ks = [self.pick_scale([abs(v) for row in nodes for v in row])] * 2
+                else:
+                    # one factor per coordinate (an axis-parallel stretch of the plane leaves the parameter alone)
+                    ks = [self.pick_scale([abs(v) for v in row]) if rnd.random() < 0.7 else 0 for row in nodes]
+                cases.append({"sec": "locate", "nodes": C.jfr(nodes), "scale": ks, "s0": str(s0)})
+        zero_thr = float(self.const["ZERO_THRESHOLD"])
+        l2_thr = self.const["L2_THRESHOLD"]
+        for cs in cases:
+            with self.guard("locate", cs):
+                ks = [int(v) for v in cs["scale"]]
+                fs = [Fr(2) ** k for k in ks]
+                base = [[_fr(v) for v in r] for r in cs["nodes"]]
+                nodes = [[v * f for v in r] for r, f in zip(base, fs)]
+                s0 = _fr(cs["s0"])
+                pt = [X.bern(r, s0) for r in nodes]
+                if any(Fr(float(v)) != v for r in nodes for v in r) or any(Fr(float(v)) != v for v in pt):
+                    res.skip("locate: B(s0) not a binary64 point")
+                    continue
+                sizes = [max(abs(v) for v in r) for r in nodes]
+                # ---- exact classification of the input (on the unscaled net: everything but the L2 cut-off is scale free)
+                live = []
+                for c, r in enumerate(base):
+                    pw = X.bern_to_power(r)
+                    pw[0] -= X.bern(r, s0)
+                    while pw and pw[-1] == 0:
+                        pw.pop()
+                    if pw:
+                        live.append((c, pw))
+                if not live:
+                    continue
+                if max(len(pw) for _, pw in live) - 1 > 3:
+                    res.skip("locate: true degree above 3")
+                    continue
+                if any(X.poly_eval(pw, s0) != 0 for _, pw in live):
+                    raise SystemExit("spec broken: B(s0) is not on the curve")
+                derivs = [X.poly_eval(X.poly_deriv(pw), s0) for _, pw in live]
+                norms2 = [X.poly_int01(X.poly_mul(pw, pw)) for _, pw in live]
+                scaled = any(ks)
+                tags = dict(sec="locate", degree=max(len(pw) for _, pw in live) - 1, nodes=len(nodes[0]),
+                            scale=(scale_bucket(ks[0]) if ks[0] == ks[1] else "one-factor-per-coordinate"),
+                            size=scale_bucket(min([mag_exp([s]) for s in sizes if s] or [0])))
+                key = ("locate", cs["nodes"], ks, cs["s0"])
+                if any(d == 0 for d in derivs):
+                    res.count(key, nontrivial=False, regime="stationary-coordinate(not demanded)", **tags)
+                    continue
+                # below the routine's L2 cut-off the second coordinate is not examined at all (see the notes): the answer is
+                # then only determined when s0 is the ONLY root of each coordinate polynomial near [0, 1]
+                tiny = any(n2 * fs[c] ** 2 < (l2_thr * 16) ** 2 for (c, _), n2 in zip(live, norms2))
+                if tiny and not all(only_root_near_unit(pw, s0) for _, pw in live):
+                    res.count(key, nontrivial=False, regime="below-L2-cutoff+several-roots(not demanded)", **tags)
+                    self.tiny_multi = getattr(self, "tiny_multi", 0) + 1
+                    continue
+                demanded = True
+                for i, (_, pa) in enumerate(live):
+                    na = len(pa) - 1
+                    fa = [float(v) for v in pa]
+                    allow = (4 * C_ROOT * (na + 1) * UF * max(abs(v) for v in fa) * sum(float(s0) ** j for j in range(na + 1)) /
+                             abs(float(derivs[i])))
+                    if allow > 2.0 ** -20:
+                        demanded = False
+                    for j, (_, pb) in enumerate(live):
+                        if j == i:
+                            continue
+                        nb = math.sqrt(float(norms2[j]))
+                        slope = abs(float(derivs[j])) / nb
+                        evalerr = 2 * (len(pb) + 1) * UF * sum(abs(float(v)) for v in pb) / nb
+                        if slope * allow + evalerr > zero_thr / 2:
+                            demanded = False
+                if not demanded:
+                    res.count(key, nontrivial=False, regime="ill-conditioned(not demanded)", **tags)
+                    continue
+                res.count(key, regime="demanded" + ("+below-L2-cutoff" if tiny else ""), **tags)
+                res.sample({"sec": "locate", "nodes": cs["nodes"], "scale": ks, "s0": cs["s0"]}, cap=9)
+                arr = C.farr(nodes)
+                pre = "" if not scaled else ("2^%d * " % ks[0] if ks[0] == ks[1] else "diag(2^%d, 2^%d) * " % tuple(ks))
+                shown = "%s%s at B(%s) = (%r, %r)" % (pre, cs["nodes"], s0, float(pt[0]), float(pt[1]))
+                sfx = ":scaled-net" if scaled else ""
+                try:
+                    work = arr.copy(order="F")
+                    got = A.locate_point(work, float(pt[0]), float(pt[1]))
+                except Exception as exc:  # noqa
+                    res.failure("locate-raised:%s%s" % (type(exc).__name__, sfx), "locate_point(%s) raised %r" % (shown, exc), cs)
+                    continue
+                if not np.array_equal(work, arr):
+                    res.failure("input-mutated:locate_point", "locate_point changed its nodes argument (%s)" % shown, cs)
+                if got is None:
+                    res.failure("locate-missed:point-on-curve" + sfx,
+                                "locate_point(%s) returned None; the point is exactly B(%s), a simple root of every non-constant coordinate "
+                                "polynomial" % (shown, s0), cs)
+                    continue
+                if not math.isfinite(float(got)):
+                    res.failure("non-finite:locate", "locate_point(%s) returned %r" % (shown, got), cs)
+                    continue
+                g = Fr(float(got))
+                resid = max((abs(X.bern(r, g) - v) / sz for r, v, sz in zip(nodes, pt, sizes) if sz), default=Fr(0))
+                if self.ratio("locate-residual", resid, 2.0 ** -30) or not (-1e-3 <= float(got) <= 1 + 1e-3):
+                    res.failure("locate-wrong:point-on-curve" + sfx,
+                                "locate_point(%s) returned %r: |B(s) - P| = %.3e * size (allowed 2^-30), expected a parameter of "
+                                "the point such as %s" % (shown, got, float(resid), s0), cs)
+        if getattr(self, "tiny_multi", 0):
+            res.notes.append("locate: %d generated cases lie below the L2 cut-off of normalize_polynomial with several roots of a "
+                             "coordinate polynomial near [0,1]; the routine does not examine the second coordinate there, so "
+                             "they are not demanded" % self.tiny_multi)
+
     # ----------------------------------------------------------------
     SECTIONS = {"implicit": "sec_implicit", "ipoly": "sec_ipoly", "p2pb": "sec_p2pb", "norm": "sec_norm",
-                "sigma": "sec_sigma", "roots": "sec_roots", "unit": "sec_unit", "endtoend": "sec_endtoend"}
-    SHIM_SECTIONS = ("ipoly", "endtoend")
+                "sigma": "sec_sigma", "roots": "sec_roots", "unit": "sec_unit", "endtoend": "sec_endtoend",
+                # (new families last: the random stream of the sections above is unchanged)
+                "scale": "sec_scale", "locate": "sec_locate"}
+    SHIM_SECTIONS = ("ipoly", "endtoend", "locate")
 
     def run(self, rep=None):
         if rep:
@@ -1256,6 +1478,56 @@ def _fr(v):
     if isinstance(v, str) and v.startswith(("0x", "-0x")):
         return Fr(float.fromhex(v))
     return Fr(v)
+
+
+def mag_exp(vals):
+    """binary exponent of the largest magnitude (0 for an all-zero list)"""
+    m = max((abs(v) for v in vals), default=0)
+    return (math.frexp(float(m))[1] - 1) if m else 0
+
+
+def scale_bucket(k):
+    """coarse bucket of a binary exponent for the evidence distribution"""
+    if k == 0:
+        return "2^0"
+    a = abs(k)
+    lo = 0 if a < 13 else 13 if a < 26 else 26 if a < 40 else 40 if a < 52 else 52 if a < 100 else 100
+    return "2^%s%d.." % ("-" if k < 0 else "+", lo)
+
+
+def only_root_near_unit(pw, s0):
+    """exact: s0 is a root of the polynomial pw (ascending rationals, degree <= 3) and the cofactor pw / (s - s0) has no
+    root - real, or complex with |imaginary part| <= 1/8 - whose real part lies in [-1/8, 9/8]"""
+    n = len(pw) - 1
+    # synthetic division by (s - s0)
+    q = [Fr(0)] * n
+    carry = Fr(0)
+    for i in range(n, 0, -1):
+        carry = pw[i] + carry * s0
+        q[i - 1] = carry
+    if pw[0] + carry * s0 != 0:
+        return False
+    while q and q[-1] == 0:
+        q.pop()
+    lo, hi = Fr(-1, 8), Fr(9, 8)
+    if len(q) <= 1:
+        return True
+    if len(q) == 2:
+        r = -q[0] / q[1]
+        return not (lo <= r <= hi)
+    if len(q) > 3:
+        return False
+    c, b, a = q
+    disc = b * b - 4 * a * c
+    vertex = -b / (2 * a)
+    if disc < 0:
+        return not (lo <= vertex <= hi and -disc / (4 * a * a) <= Fr(1, 64))
+    val = lambda t: (a * t + b) * t + c  # noqa
+    if val(lo) * val(hi) <= 0:
+        return False
+    if lo <= vertex <= hi and val(vertex) * val(lo) <= 0:
+        return False
+    return True
 
 
 def guarded(res, name, fn, arr, rc):
